@@ -40,7 +40,8 @@ func (g *QGen) nameNot(bad ...string) string {
 	}
 }
 
-var qUnicodeStrings = []string{"é", "日本語", "\U0001F600 smile", "tag\U000E0001", "ls\u2028ps\u2029", "bell\x07", "nul\x00", "del\x7f", "\u00a0nbsp", "q\"é\\", "\ufeffbom", "esc\x1b[0m", "\"\"\"", "a\"\"\"b\n  c", "\\\"\"\"", "  \n x \n"}
+var qUnicodeStrings = []string{"é", "日本語", "\U0001F600 smile", "tag\U000E0001", "ls\u2028ps\u2029", "bell\x07", "nul\x00", "del\x7f", "\u00a0nbsp", "q\"é\\", "\ufeffbom", "esc\x1b[0m", "\"\"\"", "a\"\"\"b\n  c", "\\\"\"\"", "  \n x \n",
+	"first \"line\"\ndéjà vu \U0001F600 ok", "tab\té", "back\\slash é日本", "q\"é", "x\ny日本\n  z", "\"\"\" é"}
 
 func (g *QGen) strValue() string {
 	if g.Unicode && g.R.Intn(2) == 0 {
@@ -267,9 +268,30 @@ type unparser struct {
 }
 
 func (u *unparser) p(text string) { u.toks = append(u.toks, RTok{Text: text, Value: text}) }
+// blockLines: s can be written as a block string with the delimiters on lines
+// of their own (quotes, backslashes and line feeds stay raw): no CR or control
+// character, first line not indented and not blank, last line not blank.
+func blockLines(s string) bool {
+	lines := strings.Split(s, "\n")
+	blank := func(l string) bool { return strings.Trim(l, " \t") == "" }
+	if blank(lines[0]) || blank(lines[len(lines)-1]) || lines[0][0] == ' ' || lines[0][0] == '\t' {
+		return false
+	}
+	for _, c := range s {
+		if c < 0x20 && c != '\n' && c != '\t' {
+			return false
+		}
+	}
+	return true
+}
+
 func (u *unparser) str(v string) {
 	if blockable(v) && u.r != nil && u.r.Intn(3) == 0 {
 		u.toks = append(u.toks, RTok{Text: `"""` + v + `"""`, Value: v})
+		return
+	}
+	if blockLines(v) && u.r != nil && u.r.Intn(2) == 0 {
+		u.toks = append(u.toks, RTok{Text: "\"\"\"\n" + strings.ReplaceAll(v, `"""`, `\"""`) + "\n\"\"\"", Value: v})
 		return
 	}
 	u.toks = append(u.toks, RTok{Text: quoteGraphQL(v, u.r), Value: v})
